@@ -1,6 +1,800 @@
-fn main() {
-    match vharness::refcrypt::selftest() {
-        Ok(n) => println!("selftest ok: {} checks", n),
-        Err(e) => { println!("selftest FAILED: {}", e); std::process::exit(3) }
+//! C06 - the standard security handler agrees with the ISO 32000 algorithms (DESIGN §4 C06).
+//!
+//! Differential check against the independent reference handler of `refcrypt.rs`.
+//! Direction A: lopdf encrypts (real `EncryptionState::try_from` + `Document::encrypt`); the reference
+//! reads the encryption dictionary, recomputes the deterministic fields, validates the randomised
+//! ones, authenticates as user and as owner and decrypts every string and stream -> plaintext.
+//! Direction B: the reference builds the encryption dictionary and encrypts (salts / IVs / padding from
+//! a fixed menu, no RNG); lopdf's `decrypt(user)` / `decrypt(owner)` must restore the plaintext.
+//! Both directions are run on the in-memory document and through lopdf's writer + loader.
+use lopdf::{Document, Object, ObjectId};
+use serde_json::{json, Value};
+use std::collections::BTreeMap;
+use std::sync::atomic::{AtomicU64, Ordering};
+use vharness::objjson::hex;
+use vharness::refcrypt::menu::{self, Config, DocKind, Ver, F};
+use vharness::refcrypt::{self as rc, Direction, EncDict, IvSource, MakeParams, Quirks, Role};
+use vharness::{cmp, util, Mode, Run};
+
+#[derive(Clone, Debug)]
+struct Case {
+    /// 'A' lopdf encrypts, reference opens; 'B' reference encrypts, lopdf opens
+    dir: char,
+    cfg: Config,
+    kind: DocKind,
+    pair: String,
+    user: String,
+    owner: String,
+    perms: u64,
+    id_len: usize,
+    via_file: bool,
+    table: bool,
+    /// B: menu index for salts, IVs, U padding, Perms padding, file key
+    pattern: usize,
+    /// B: write the top-level /Length entry
+    write_length: bool,
+    /// B: leave StmF / StrF out instead of naming /Identity
+    omit_identity: bool,
+}
+
+impl Case {
+    fn to_json(&self) -> Value {
+        json!({
+            "direction": self.dir.to_string(), "config": self.cfg.to_json(), "doc": self.kind.name(), "pair": self.pair,
+            "user": self.user, "owner": self.owner, "perms": self.perms, "p_word": menu::p_word(self.perms), "id_len": self.id_len,
+            "via_file": self.via_file, "table": self.table, "pattern": self.pattern, "write_length": self.write_length,
+            "omit_identity": self.omit_identity,
+        })
     }
+    fn from_json(v: &Value) -> Case {
+        Case {
+            dir: v["direction"].as_str().and_then(|s| s.chars().next()).unwrap_or('A'),
+            cfg: Config::from_json(&v["config"]),
+            kind: DocKind::from_name(v["doc"].as_str().unwrap_or("page")),
+            pair: v["pair"].as_str().unwrap_or("").to_string(),
+            user: v["user"].as_str().unwrap_or("").to_string(),
+            owner: v["owner"].as_str().unwrap_or("").to_string(),
+            perms: v["perms"].as_u64().unwrap_or(0),
+            id_len: v["id_len"].as_u64().unwrap_or(16) as usize,
+            via_file: v["via_file"].as_bool().unwrap_or(false),
+            table: v["table"].as_bool().unwrap_or(true),
+            pattern: v["pattern"].as_u64().unwrap_or(0) as usize,
+            write_length: v["write_length"].as_bool().unwrap_or(true),
+            omit_identity: v["omit_identity"].as_bool().unwrap_or(false),
+        }
+    }
+}
+
+#[derive(Clone, Debug)]
+struct Fail {
+    item: String,
+    detail: String,
+    finding: Option<&'static str>,
+}
+
+#[derive(Default)]
+struct Counters {
+    fields_equal: AtomicU64,
+    fields_validated: AtomicU64,
+    ref_strings: AtomicU64,
+    ref_streams: AtomicU64,
+    lopdf_opens: AtomicU64,
+    skipped: AtomicU64,
+}
+
+fn inc(a: &AtomicU64, n: u64) {
+    a.fetch_add(n, Ordering::Relaxed);
+}
+
+fn expected_text(item: &str) -> &'static str {
+    if item.starts_with("A:field") {
+        "the entry lopdf writes equals the value the ISO 32000 algorithm defines (deterministic fields) or validates under it (randomised fields)"
+    } else if item.starts_with("A:") {
+        "the reference handler authenticates with this password and decrypts every string and stream of the lopdf-encrypted document to the plaintext"
+    } else {
+        "lopdf authenticates this password and decrypt restores the plaintext of the document the reference handler encrypted"
+    }
+}
+
+fn nominal_cfm(f: F) -> &'static [u8] {
+    match f {
+        F::Rc4 => b"V2",
+        F::Aes128 => b"AESV2",
+        F::Aes256 => b"AESV3",
+        F::Identity => b"None",
+    }
+}
+
+fn identity_named_not_in_cf(c: &Config) -> bool {
+    c.has_filters() && (c.stm == F::Identity || c.strf == F::Identity) && !c.identity_in_cf && !c.custom_identity
+}
+
+fn uses_custom_identity(c: &Config) -> bool {
+    c.has_filters() && c.custom_identity && (c.stm == F::Identity || c.strf == F::Identity)
+}
+
+fn too_long_r5(r: i64, pw: &str) -> bool {
+    r >= 5 && rc::utf8_prep_full(pw).map(|b| b.len() > 127).unwrap_or(false)
+}
+
+fn diff_plain(plain: &Document, d: &Document) -> Option<String> {
+    if d.trailer.has(b"Encrypt") {
+        return Some("trailer still has /Encrypt".into());
+    }
+    cmp::diff_objects(&plain.objects, &d.objects)
+}
+
+// ---------------------------------------------------------------------------------------------
+// direction A
+
+struct Opened {
+    problem: Option<String>,
+}
+
+#[allow(clippy::too_many_arguments)]
+fn ref_open(
+    k: Option<&Counters>, plain: &Document, container: &Document, enc: &EncDict, enc_id: ObjectId, id0: &[u8], pw: &[u8], role: Role, q: Quirks,
+    truncate: bool,
+) -> Opened {
+    let key = match rc::derive_opt(enc, id0, pw, role, truncate) {
+        Ok(k) => k,
+        Err(e) => return Opened { problem: Some(e) },
+    };
+    let mut objs: BTreeMap<ObjectId, Object> = container
+        .objects
+        .iter()
+        .filter(|(id, o)| **id != enc_id && !matches!(o.type_name(), Ok(b"XRef")))
+        .map(|(k, v)| (*k, v.clone()))
+        .collect();
+    let rep = rc::apply(&mut objs, None, enc, &key, Direction::Decrypt, q);
+    if let Some(k) = k {
+        inc(&k.ref_strings, rep.strings);
+        inc(&k.ref_streams, rep.streams);
+    }
+    if let Some((path, e)) = rep.errors.first() {
+        return Opened { problem: Some(format!("{} object(s) cannot be decrypted, first {}: {}", rep.errors.len(), path, e)) };
+    }
+    Opened { problem: cmp::diff_objects(&plain.objects, &objs) }
+}
+
+fn run_a(c: &Case, k: Option<&Counters>) -> Result<Vec<Fail>, String> {
+    let r = c.cfg.revision();
+    let id0 = menu::id_of_len(c.id_len);
+    let plain = menu::build_doc(c.kind, &c.cfg, &id0, !c.via_file);
+    let up = rc::prep(r, &c.user)?;
+    let op = rc::prep(r, &c.owner)?;
+    let mut fails: Vec<Fail> = vec![];
+    let state = match menu::build_state(&c.cfg, &plain, &c.user, &c.owner, c.perms) {
+        Ok(s) => s,
+        Err(e) => return Ok(vec![Fail { item: "A:state".into(), detail: e, finding: None }]),
+    };
+    let mut enc_doc = plain.clone();
+    match util::guard(|| enc_doc.encrypt(&state)) {
+        Ok(Ok(())) => {}
+        other => return Ok(vec![Fail { item: "A:encrypt".into(), detail: format!("{:?}", other), finding: None }]),
+    }
+    // the encrypted document as a container of objects: in memory, or written and parsed back
+    let container = if c.via_file {
+        let l = util::save_bytes(&enc_doc, c.table).and_then(|b| util::load(&b))?;
+        if !l.is_encrypted() {
+            return Err("loader auto-decrypted: cannot serve as a container".into());
+        }
+        l
+    } else {
+        enc_doc
+    };
+    let enc_id = container.trailer.get(b"Encrypt").and_then(Object::as_reference).map_err(|e| format!("no /Encrypt reference: {}", e))?;
+    let dict = match container.objects.get(&enc_id) {
+        Some(Object::Dictionary(d)) => d,
+        _ => return Ok(vec![Fail { item: "A:dictionary".into(), detail: "encryption dictionary object missing".into(), finding: None }]),
+    };
+    let enc = match EncDict::parse(dict) {
+        Ok(e) => e,
+        Err(e) => return Ok(vec![Fail { item: "A:dictionary".into(), detail: e, finding: None }]),
+    };
+    let file_id0 = rc::id0_of(&container.trailer);
+    let eq = |fails: &mut Vec<Fail>, name: &str, got: &[u8], want: &[u8], finding: Option<&'static str>| {
+        if got == want {
+            if let Some(k) = k {
+                inc(&k.fields_equal, 1);
+            }
+        } else {
+            fails.push(Fail { item: format!("A:field {}", name), detail: format!("lopdf wrote {} , the standard defines {}", hex(got), hex(want)), finding });
+        }
+    };
+    // --- fields every revision has
+    eq(&mut fails, "ID[0]", &file_id0, &id0, None);
+    eq(&mut fails, "V", &enc.v.to_be_bytes(), &c.cfg.version().to_be_bytes(), None);
+    eq(&mut fails, "R", &enc.r.to_be_bytes(), &r.to_be_bytes(), None);
+    eq(&mut fails, "P", &enc.p.to_be_bytes(), &menu::p_word(c.perms).to_be_bytes(), None);
+    eq(&mut fails, "key length", &enc.key_bits.to_be_bytes(), &c.cfg.key_bits().to_be_bytes(), None);
+    if c.cfg.has_filters() {
+        eq(&mut fails, "EncryptMetadata", &[enc.encrypt_metadata as u8], &[c.cfg.em as u8], None);
+        for f in [c.cfg.stm, c.cfg.strf] {
+            if f != F::Identity {
+                let got = enc.cf.get(&c.cfg.filter_name(f)).cloned().unwrap_or_default();
+                eq(&mut fails, "CFM", &got, nominal_cfm(f), None);
+            }
+        }
+    }
+    if r <= 4 {
+        // --- deterministic fields: O, file key, U (R2: all 32 bytes, R3-4: first 16)
+        let n = enc.n();
+        let o_ref = rc::alg3_o(r, n, &op, &up, false);
+        let o_finding = if op.is_empty() && !up.is_empty() && rc::alg3_o(r, n, &op, &up, true) == enc.o { Some("empty-owner-password") } else { None };
+        eq(&mut fails, "O", &enc.o, &o_ref, o_finding);
+        let key_ref = rc::alg2_file_key(&enc, &id0, &up);
+        eq(&mut fails, "file key", state.file_encryption_key(), &key_ref, None);
+        if r == 2 {
+            eq(&mut fails, "U", &enc.u, &rc::alg4_u(&key_ref), None);
+        } else {
+            eq(&mut fails, "U[0..16]", &enc.u[..16], &rc::alg5_u(&key_ref, &id0, &[0; 16])[..16], None);
+        }
+    } else {
+        // --- randomised fields validate and yield the file key
+        let long = too_long_r5(r, &c.user) || too_long_r5(r, &c.owner);
+        let upf = rc::utf8_prep_full(&c.user)?;
+        let opf = rc::utf8_prep_full(&c.owner)?;
+        let mut val = |fails: &mut Vec<Fail>, name: &str, ok: bool, ok_untruncated: bool| {
+            if ok {
+                if let Some(k) = k {
+                    inc(&k.fields_validated, 1);
+                }
+            } else {
+                fails.push(Fail {
+                    item: format!("A:field {}", name),
+                    detail: "does not validate under the standard's algorithm".into(),
+                    finding: if long && ok_untruncated { Some("r6-password-over-127") } else { None },
+                });
+            }
+        };
+        val(&mut fails, "U (Algorithm 11)", rc::alg11_user(&enc, &up), rc::alg11_user(&enc, &upf));
+        val(&mut fails, "O (Algorithm 12)", rc::alg12_owner(&enc, &op), rc::alg12_owner(&enc, &opf));
+        val(&mut fails, "UE (file key)", rc::alg2a_user(&enc, &up).as_deref() == Some(&menu::FILE_KEY[..]), rc::alg2a_user(&enc, &upf).as_deref() == Some(&menu::FILE_KEY[..]));
+        val(&mut fails, "OE (file key)", rc::alg2a_owner(&enc, &op).as_deref() == Some(&menu::FILE_KEY[..]), rc::alg2a_owner(&enc, &opf).as_deref() == Some(&menu::FILE_KEY[..]));
+        match rc::alg13(&enc, &menu::FILE_KEY) {
+            Ok(()) => val(&mut fails, "Perms (Algorithm 13)", true, true),
+            Err(e) => fails.push(Fail { item: "A:field Perms (Algorithm 13)".into(), detail: e, finding: None }),
+        }
+        eq(&mut fails, "file key", state.file_encryption_key(), &menu::FILE_KEY, None);
+    }
+    // --- open as user and as owner
+    for role in [Role::User, Role::Owner] {
+        // an empty owner password is "no owner password" for R <= 4: the user password opens as owner
+        let absent_owner = role == Role::Owner && r <= 4 && op.is_empty() && !up.is_empty();
+        let pw: &[u8] = match role {
+            Role::User => &up,
+            Role::Owner => {
+                if absent_owner {
+                    &up
+                } else {
+                    &op
+                }
+            }
+        };
+        let item = if role == Role::User { "A:open as user" } else { "A:open as owner" };
+        let o = ref_open(k, &plain, &container, &enc, enc_id, &id0, pw, role, Quirks::default(), true);
+        let Some(problem) = o.problem else { continue };
+        // classification: exactly one catalogued deviation neutralised must make the item pass
+        let mut cands: Vec<(&'static str, Quirks, bool, Vec<u8>)> = vec![];
+        if c.kind == DocKind::StreamDict && c.cfg.strf != F::Identity {
+            cands.push(("stream-dict-strings", Quirks { skip_stream_dict_strings: true, ..Default::default() }, true, pw.to_vec()));
+        }
+        if identity_named_not_in_cf(&c.cfg) {
+            cands.push(("identity-filter-fallback", Quirks { missing_filter_is_rc4: true, ..Default::default() }, true, pw.to_vec()));
+        }
+        if uses_custom_identity(&c.cfg) {
+            cands.push(("cfm-none", Quirks { cfm_identity_is_none: true, ..Default::default() }, true, pw.to_vec()));
+        }
+        if too_long_r5(r, if role == Role::User { &c.user } else { &c.owner }) {
+            let full = rc::utf8_prep_full(if role == Role::User { &c.user } else { &c.owner })?;
+            cands.push(("r6-password-over-127", Quirks::default(), false, full));
+        }
+        if absent_owner {
+            cands.push(("empty-owner-password", Quirks::default(), true, vec![]));
+        }
+        let mut finding = None;
+        for (id, q, trunc, alt) in cands {
+            if ref_open(None, &plain, &container, &enc, enc_id, &id0, &alt, role, q, trunc).problem.is_none() {
+                finding = Some(id);
+                break;
+            }
+        }
+        fails.push(Fail { item: item.into(), detail: problem, finding });
+    }
+    Ok(fails)
+}
+
+// ---------------------------------------------------------------------------------------------
+// direction B
+
+fn pattern16(p: usize) -> [u8; 16] {
+    match p {
+        0 => [0; 16],
+        1 => [0xff; 16],
+        _ => core::array::from_fn(|i| i as u8),
+    }
+}
+
+/// What the reference-side writer does differently (classifier only; default = the standard).
+#[derive(Clone, Copy, Default)]
+struct BVariant {
+    quirks: Quirks,
+    /// spell the CFM of the identity crypt filter /Identity (lopdf's spelling) instead of /None
+    cfm_identity: bool,
+    /// always write /Length
+    force_length: bool,
+}
+
+struct BDoc {
+    plain: Document,
+    doc: Document,
+    enc: EncDict,
+    id0: Vec<u8>,
+    op: Vec<u8>,
+    up: Vec<u8>,
+}
+
+fn build_b(c: &Case, v: BVariant) -> Result<BDoc, String> {
+    let r = c.cfg.revision();
+    let id0 = menu::id_of_len(c.id_len);
+    let plain = menu::build_doc(c.kind, &c.cfg, &id0, !c.via_file);
+    let up = rc::prep(r, &c.user)?;
+    let op = rc::prep(r, &c.owner)?;
+    let mut cf: Vec<(Vec<u8>, Vec<u8>)> = vec![];
+    for f in [c.cfg.stm, c.cfg.strf] {
+        let name = c.cfg.filter_name(f);
+        if cf.iter().any(|(n, _)| *n == name) {
+            continue;
+        }
+        if f != F::Identity {
+            cf.push((name, nominal_cfm(f).to_vec()));
+        } else if c.cfg.custom_identity {
+            cf.push((name, if v.cfm_identity { b"Identity".to_vec() } else { b"None".to_vec() }));
+        }
+    }
+    let fname = |f: F| -> Option<Vec<u8>> {
+        if f == F::Identity && !c.cfg.custom_identity && c.omit_identity {
+            None
+        } else {
+            Some(c.cfg.filter_name(f))
+        }
+    };
+    let p16 = pattern16(c.pattern);
+    let mut file_key = menu::FILE_KEY;
+    if c.pattern == 1 {
+        file_key = [0xff; 32];
+    } else if c.pattern == 2 {
+        file_key = core::array::from_fn(|i| (255 - i) as u8);
+    }
+    let s8 = |x: u8| -> [u8; 8] { core::array::from_fn(|i| p16[i] ^ x) };
+    let mp = MakeParams {
+        v: c.cfg.version(),
+        r,
+        key_bits: c.cfg.key_bits(),
+        write_length: match c.cfg.ver {
+            Ver::V1 => false,
+            Ver::R5 | Ver::V5 => c.write_length,
+            _ => c.write_length || v.force_length,
+        },
+        p: menu::p_word(c.perms),
+        encrypt_metadata: c.cfg.em,
+        write_encrypt_metadata: !(c.cfg.em && c.pattern % 2 == 1),
+        cf,
+        stmf: fname(c.cfg.stm),
+        strf: fname(c.cfg.strf),
+        file_key,
+        u_tail: p16,
+        salts: [s8(0), s8(0x10), s8(0x20), s8(0x30)],
+        perms_tail: [p16[0], p16[1], p16[2], p16[3]],
+    };
+    let (dict, key) = rc::make(&mp, &id0, &up, &op);
+    let enc = EncDict::parse(&dict).map_err(|e| format!("reference wrote a dictionary it cannot read: {}", e))?;
+    let mut doc = plain.clone();
+    let rep = rc::apply(&mut doc.objects, None, &enc, &key, Direction::Encrypt(IvSource::new(p16)), v.quirks);
+    if let Some((p, e)) = rep.errors.first() {
+        return Err(format!("reference cannot encrypt {}: {}", p, e));
+    }
+    let enc_id = (doc.max_id + 1, 0);
+    doc.max_id += 1;
+    doc.objects.insert(enc_id, Object::Dictionary(dict));
+    doc.trailer.set("Encrypt", Object::Reference(enc_id));
+    Ok(BDoc { plain, doc, enc, id0, op, up })
+}
+
+/// What lopdf sees: the in-memory document or the document after lopdf's writer and loader.
+fn b_target(c: &Case, b: &BDoc) -> Result<Document, String> {
+    if c.via_file {
+        util::save_bytes(&b.doc, c.table).and_then(|x| util::load(&x))
+    } else {
+        Ok(b.doc.clone())
+    }
+}
+
+/// decrypt with a password (or raw bytes); Ok(document) or the error text
+fn lopdf_open(target: &Document, pw: Result<&str, &[u8]>) -> Result<Document, String> {
+    let mut d = target.clone();
+    let r = match pw {
+        Ok(s) => util::guard(|| d.decrypt(s)),
+        Err(raw) => util::guard(|| d.decrypt_raw(raw)),
+    };
+    match r {
+        Ok(Ok(())) => Ok(d),
+        Ok(Err(e)) => Err(format!("decrypt returned Err({:?})", e)),
+        Err(p) => Err(p),
+    }
+}
+
+fn b_user_problem(c: &Case, v: BVariant) -> Result<Option<String>, String> {
+    let b = build_b(c, v)?;
+    let t = match b_target(c, &b) {
+        Ok(t) => t,
+        Err(e) => return Ok(Some(e)),
+    };
+    if !t.is_encrypted() {
+        return Ok(diff_plain(&b.plain, &t));
+    }
+    Ok(match lopdf_open(&t, Ok(&c.user)) {
+        Ok(d) => diff_plain(&b.plain, &d),
+        Err(e) => Some(e),
+    })
+}
+
+fn run_b(c: &Case, k: Option<&Counters>) -> Result<Vec<Fail>, String> {
+    let r = c.cfg.revision();
+    let b = build_b(c, BVariant::default())?;
+    let mut fails = vec![];
+    let target = match b_target(c, &b) {
+        Ok(t) => t,
+        Err(e) => {
+            // the loader's own decrypt("") failed
+            return Ok(vec![Fail { item: "B:load".into(), detail: e, finding: None }]);
+        }
+    };
+    let user_candidates = |c: &Case| -> Vec<(&'static str, BVariant)> {
+        let mut v = vec![];
+        if c.kind == DocKind::StreamDict && c.cfg.strf != F::Identity {
+            v.push(("stream-dict-strings", BVariant { quirks: Quirks { skip_stream_dict_strings: true, ..Default::default() }, ..Default::default() }));
+        }
+        if identity_named_not_in_cf(&c.cfg) {
+            v.push(("identity-filter-fallback", BVariant { quirks: Quirks { missing_filter_is_rc4: true, ..Default::default() }, ..Default::default() }));
+        }
+        if uses_custom_identity(&c.cfg) {
+            v.push(("cfm-none", BVariant { cfm_identity: true, ..Default::default() }));
+        }
+        if matches!(c.cfg.ver, Ver::V4) && !c.write_length {
+            v.push(("v4-length-absent", BVariant { force_length: true, ..Default::default() }));
+        }
+        v
+    };
+    let classify_user = |c: &Case| -> Option<&'static str> {
+        for (id, v) in user_candidates(c) {
+            if matches!(b_user_problem(c, v), Ok(None)) {
+                return Some(id);
+            }
+        }
+        None
+    };
+    if let Some(k) = k {
+        inc(&k.lopdf_opens, 1);
+    }
+    if !target.is_encrypted() {
+        // the loader opened it with the empty password
+        if let Some(p) = diff_plain(&b.plain, &target) {
+            fails.push(Fail { item: "B:auto-decrypt on load".into(), detail: p, finding: classify_user(c) });
+        }
+        return Ok(fails);
+    }
+    // --- authentication entry points
+    let auth_u = util::guard(|| target.authenticate_user_password(&c.user));
+    if !matches!(auth_u, Ok(Ok(()))) {
+        fails.push(Fail { item: "B:authenticate user".into(), detail: format!("{:?}", auth_u), finding: classify_user(c) });
+    }
+    let owner_present = !(r <= 4 && b.op.is_empty());
+    if owner_present {
+        let auth_o = util::guard(|| target.authenticate_owner_password(&c.owner));
+        if !matches!(auth_o, Ok(Ok(()))) {
+            fails.push(Fail { item: "B:authenticate owner".into(), detail: format!("{:?}", auth_o), finding: classify_user(c) });
+        }
+    }
+    // --- decrypt(user)
+    let as_user = lopdf_open(&target, Ok(&c.user));
+    let user_problem = match &as_user {
+        Ok(d) => diff_plain(&b.plain, d),
+        Err(e) => Some(e.clone()),
+    };
+    if let Some(p) = &user_problem {
+        fails.push(Fail { item: "B:decrypt(user)".into(), detail: p.clone(), finding: classify_user(c) });
+    }
+    // --- decrypt(owner)
+    if owner_present {
+        if let Some(k) = k {
+            inc(&k.lopdf_opens, 1);
+        }
+        let as_owner = lopdf_open(&target, Ok(&c.owner));
+        let problem = match &as_owner {
+            Ok(d) => diff_plain(&b.plain, d),
+            Err(e) => Some(e.clone()),
+        };
+        if let Some(p) = problem {
+            // finding (i): R <= 4, owner differs from user, lopdf authenticates it as owner, and offering the
+            // user password recovered from O by Algorithm 7 gives exactly what decrypt(user) gives
+            let mut finding = None;
+            if r <= 4 && rc::pad32(&b.op) != rc::pad32(&b.up) && matches!(util::guard(|| target.authenticate_owner_password(&c.owner)), Ok(Ok(()))) {
+                if let (Some((_, recovered)), Ok(du)) = (rc::alg7_owner(&b.enc, &b.id0, &b.op), &as_user) {
+                    if let Ok(dr) = lopdf_open(&target, Err(&recovered)) {
+                        if cmp::digest_doc(&dr) == cmp::digest_doc(du) {
+                            finding = Some("owner-key-r2-4");
+                        }
+                    }
+                }
+            }
+            if finding.is_none() && user_problem.is_some() {
+                finding = classify_user(c);
+            }
+            fails.push(Fail { item: "B:decrypt(owner)".into(), detail: p, finding });
+        }
+    }
+    Ok(fails)
+}
+
+// ---------------------------------------------------------------------------------------------
+// enumeration
+
+fn run_case(c: &Case, k: Option<&Counters>) -> Result<Vec<Fail>, String> {
+    if c.dir == 'A' {
+        run_a(c, k)
+    } else {
+        run_b(c, k)
+    }
+}
+
+fn signature(f: &[Fail]) -> Vec<(String, String)> {
+    let mut v: Vec<(String, String)> = f.iter().map(|x| (x.item.clone(), x.finding.unwrap_or("-").to_string())).collect();
+    v.sort();
+    v
+}
+
+fn pairs() -> Vec<(String, String, String)> {
+    let mut v: Vec<(String, String, String)> = menu::password_pairs().into_iter().map(|(n, u, o)| (n.to_string(), u, o)).collect();
+    let u32_: String = (0..32).map(|i| (b'a' + (i % 26) as u8) as char).collect();
+    let o32: String = (0..32).map(|i| (b'Z' - (i % 26) as u8) as char).collect();
+    v.push(("len32".into(), u32_, o32));
+    // SASLprep changes these: ligature -> "fi", soft hyphen removed, NBSP -> space, Roman numeral -> "IX"
+    v.push(("saslprep".into(), "\u{fb01}x\u{ad}pw\u{a0}1".into(), "\u{2168} owner".into()));
+    v
+}
+
+fn configs_a() -> Vec<Config> {
+    let mut v = menu::configs();
+    for (ver, other) in [(Ver::V4, F::Aes128), (Ver::V5, F::Aes256)] {
+        for (stm, strf) in [(F::Identity, other), (other, F::Identity), (F::Identity, F::Identity)] {
+            v.push(Config { ver, stm, strf, identity_in_cf: false, custom_identity: true, em: true });
+        }
+    }
+    v
+}
+
+fn configs_b() -> Vec<Config> {
+    configs_a().into_iter().filter(|c| !c.identity_in_cf).collect()
+}
+
+fn cases(run: &Run) -> Vec<Case> {
+    let mut out = vec![];
+    let thorough = run.thorough;
+    let all = menu::all_flags();
+    let pairs = pairs();
+    for dir in ['A', 'B'] {
+        let cfgs = if dir == 'A' { configs_a() } else { configs_b() };
+        for (ci, cfg) in cfgs.iter().enumerate() {
+            let r = cfg.revision();
+            let r6 = r == 6;
+            for (ki, kind) in DocKind::ALL.iter().enumerate() {
+                if *kind == DocKind::Crypt && !cfg.has_filters() {
+                    continue;
+                }
+                // compound deviations are kept apart (narrow classification): the stream-dictionary
+                // document is combined with conforming filter spellings only
+                if *kind == DocKind::StreamDict && (identity_named_not_in_cf(cfg) || uses_custom_identity(cfg)) {
+                    continue;
+                }
+                for (pi, (pname, user, owner)) in pairs.iter().enumerate() {
+                    if r <= 4 && (!rc::pdfdoc_encodable(user) || !rc::pdfdoc_encodable(owner)) {
+                        continue;
+                    }
+                    if r <= 4 && pname == "saslprep" {
+                        continue;
+                    }
+                    let perm_list: Vec<u64> = if thorough {
+                        if r6 {
+                            menu::perm_menu()
+                        } else {
+                            menu::perm_all256()
+                        }
+                    } else if r6 {
+                        if pname == "distinct" && *kind == DocKind::Page {
+                            menu::perm_menu()
+                        } else {
+                            vec![all]
+                        }
+                    } else {
+                        menu::perm_menu()
+                    };
+                    let ids: Vec<usize> = if r <= 4 { vec![16, 0, 32] } else { vec![16] };
+                    // variants of the reference-side spelling (B only)
+                    let mut spellings: Vec<(bool, bool)> = vec![(true, false)];
+                    if dir == 'B' {
+                        if matches!(cfg.ver, Ver::V4) || matches!(cfg.ver, Ver::V2(40)) {
+                            spellings.push((false, false));
+                        }
+                        if identity_named_not_in_cf(cfg) {
+                            spellings.push((true, true));
+                        }
+                    }
+                    for (mi, perms) in perm_list.iter().enumerate() {
+                        for (ii, id_len) in ids.iter().enumerate() {
+                            for (si, (write_length, omit_identity)) in spellings.iter().enumerate() {
+                                let patterns: Vec<usize> = if dir == 'A' {
+                                    vec![0]
+                                } else if thorough && mi < 10 {
+                                    vec![0, 1, 2]
+                                } else {
+                                    vec![(ci + ki + pi + mi + ii + si) % 3]
+                                };
+                                for pattern in patterns {
+                                    let base = Case {
+                                        dir,
+                                        cfg: cfg.clone(),
+                                        kind: *kind,
+                                        pair: pname.clone(),
+                                        user: user.clone(),
+                                        owner: owner.clone(),
+                                        perms: *perms,
+                                        id_len: *id_len,
+                                        via_file: false,
+                                        table: true,
+                                        pattern,
+                                        write_length: *write_length,
+                                        omit_identity: *omit_identity,
+                                    };
+                                    out.push(base.clone());
+                                    // through lopdf's writer and loader: permissions = all only (thorough: the menu)
+                                    let file_too = if thorough { mi < 10 } else { *perms == all };
+                                    if file_too && !(r6 && !thorough && mi > 0) {
+                                        // direction A needs a loader that does not decrypt: both passwords non-empty
+                                        if dir == 'B' || (!user.is_empty() && !owner.is_empty()) {
+                                            out.push(Case { via_file: true, table: (ci + ki + pi + ii) % 2 == 0, ..base });
+                                        }
+                                    }
+                                }
+                            }
+                        }
+                    }
+                }
+            }
+        }
+    }
+    out
+}
+
+fn main() {
+    let run = Run::from_args("C06", "exploration");
+    util::quiet_panics();
+    util::init_pool();
+    util::pin_schedule();
+    match rc::selftest() {
+        Ok(n) => run.set("reference_selftest_checks", json!(n)),
+        Err(e) => {
+            eprintln!("MACHINERY: reference handler self-test failed: {}", e);
+            std::process::exit(3);
+        }
+    }
+    if let Mode::Replay(path) = run.mode.clone() {
+        replay(&run, &path);
+    }
+    run.rule(
+        "cases = direction {A: lopdf encrypts, reference opens; B: reference encrypts, lopdf opens} x handler configuration (V1; V2 x 12 key \
+         lengths; V4 x {RC4,AESV2,Identity}^2 x EncryptMetadata; R5; V5 x {AESV3,Identity}^2; Identity spelled as /Identity, as a CF entry, as a \
+         custom filter, B also as omitted StmF/StrF and CFM /None, V4 with and without /Length) x 6 documents x 11 password pairs x permission words x \
+         file identifier length {16,0,32} x (B) salt/IV/padding pattern {00,FF,counting} x {in memory, through lopdf's writer+loader}; enumerated in \
+         a fixed order, distinct by construction; a case is non-trivial when a password is non-empty or the configuration is not V1; \
+         every failing case is executed three times and must fail the same items",
+    );
+    run.assume("the reference handler (harness/src/refcrypt.rs) is an independent reading of ISO 32000-1 7.6 / ISO 32000-2 7.6; its primitives are checked against FIPS/RFC known answers, RC4 against RFC 6229, and it round-trips on itself; no third-party encrypted PDF was available offline to anchor it further");
+    run.assume("conforming permission words only (bits 7-8 and 13-32 set, bits 1-2 clear); passwords for R <= 4 are restricted to PDFDocEncoding characters (what the standard leaves undefined is C05's nonlatin-password-collapse)");
+    run.assume("an empty owner password for R <= 4 means 'no owner password' (Algorithm 3 step a): the user password then opens the document in the owner role");
+    run.assume("CFM /None and the predefined /Identity filter mean 'no encryption' (as in every reader known to the author); V4 uses a 128-bit file key whether or not /Length is written (ISO 32000 Table 20: Length applies to V 2 and 3)");
+    run.assume("lopdf's IVs, salts and paddings are random: ciphertext is never compared; O (R2-4), U (R2), U[0..16] (R3-4), P, V, R, Length, CFM, EncryptMetadata and the file key are compared for equality, R5/R6 U, O, UE, OE, Perms are validated");
+    run.assume("documents that combine two catalogued deviations (strings in stream dictionaries together with a non-conforming Identity spelling) are left out so that every failing item is explained by exactly one finding");
+    let list = cases(&run);
+    let k = Counters::default();
+    let per_dir = [AtomicU64::new(0), AtomicU64::new(0)];
+    let via_file = AtomicU64::new(0);
+    util::par_for(list.len(), |i| {
+        let c = &list[i];
+        run.eval(1);
+        let res = run_case(c, Some(&k));
+        match res {
+            Err(e) => {
+                // only the documented skip is tolerated
+                if e.contains("cannot serve as a container") || e.contains("outside PDFDocEncoding") {
+                    inc(&k.skipped, 1);
+                } else {
+                    eprintln!("MACHINERY: case {} cannot be built: {}", c.to_json(), e);
+                    std::process::exit(3);
+                }
+            }
+            Ok(fails) => {
+                inc(&per_dir[(c.dir == 'B') as usize], 1);
+                if c.via_file {
+                    inc(&via_file, 1);
+                }
+                if !c.user.is_empty() || !c.owner.is_empty() || c.cfg.ver != Ver::V1 {
+                    run.nontrivial(1);
+                }
+                if !fails.is_empty() {
+                    let sig = signature(&fails);
+                    for _ in 0..2 {
+                        let again = run_case(c, None).map(|f| signature(&f));
+                        if again.as_ref().ok() != Some(&sig) {
+                            eprintln!("MACHINERY: failing case does not replay identically: {} first {:?} replay {:?}", c.to_json(), sig, again);
+                            std::process::exit(3);
+                        }
+                    }
+                    for f in &fails {
+                        let mut cj = c.to_json();
+                        cj["item"] = json!(f.item);
+                        run.fail(f.finding, cj, &format!("[{}] {}", f.item, f.detail), expected_text(&f.item));
+                    }
+                }
+            }
+        }
+        if i == 0 || i == list.len() / 5 || i == list.len() / 2 || i == (list.len() * 4) / 5 || i == list.len() - 1 {
+            run.sample(c.to_json());
+        }
+    });
+    run.set("cases_direction_A", json!(per_dir[0].load(Ordering::Relaxed)));
+    run.set("cases_direction_B", json!(per_dir[1].load(Ordering::Relaxed)));
+    run.set("cases_through_writer_and_loader", json!(via_file.load(Ordering::Relaxed)));
+    run.set("fields_compared_equal", json!(k.fields_equal.load(Ordering::Relaxed)));
+    run.set("fields_validated", json!(k.fields_validated.load(Ordering::Relaxed)));
+    run.set("strings_decrypted_by_reference", json!(k.ref_strings.load(Ordering::Relaxed)));
+    run.set("streams_decrypted_by_reference", json!(k.ref_streams.load(Ordering::Relaxed)));
+    run.set("lopdf_decrypt_calls_on_reference_documents", json!(k.lopdf_opens.load(Ordering::Relaxed)));
+    run.set("cases_skipped_loader_autodecrypt_container", json!(k.skipped.load(Ordering::Relaxed)));
+    run.set("configurations_A", json!(configs_a().len()));
+    run.set("configurations_B", json!(configs_b().len()));
+    run.set("permission_words", json!(if run.thorough { "all 256 conforming words (R <= 5), menu of 10 (R6)" } else { "all, none, each single flag" }));
+    run.exhaustive(true);
+    run.finish();
+}
+
+fn replay(run: &Run, path: &std::path::Path) -> ! {
+    let case = vharness::run::read_replay(path);
+    let c = Case::from_json(&case);
+    let a = run_case(&c, None);
+    let b = run_case(&c, None);
+    let (fa, fb) = match (a, b) {
+        (Ok(x), Ok(y)) => (x, y),
+        (x, y) => {
+            eprintln!("MACHINERY: case cannot be rebuilt: {:?} / {:?}", x.err(), y.err());
+            std::process::exit(3);
+        }
+    };
+    if signature(&fa) != signature(&fb) {
+        eprintln!("MACHINERY: replay not deterministic: {:?} vs {:?}", signature(&fa), signature(&fb));
+        std::process::exit(3);
+    }
+    // a replay file names one item; report that item (or all, if it names none)
+    let want = case["item"].as_str().map(|s| s.to_string());
+    let shown: Vec<&Fail> = fa.iter().filter(|f| want.as_ref().map(|w| *w == f.item).unwrap_or(true)).collect();
+    println!("case: {}", c.to_json());
+    if shown.is_empty() {
+        println!("observed: every compared field and every opened document agrees");
+    }
+    for f in &shown {
+        println!("observed: [{}] {} (finding: {})", f.item, f.detail, f.finding.unwrap_or("none"));
+        println!("expected: {}", expected_text(&f.item));
+    }
+    run.finish_replay(!shown.is_empty())
 }
